@@ -20,7 +20,7 @@ def run(ctx):
     ctx.rule("C13.sites", "the reader entry points the property names exist and are on the analysed graph", floor=5)
 
     roots, g = util.reader_graph(F)
-    fns = [f for f in util.generic_only(F, g.values()) if f["kind"] != "Closure"]
+    fns = list(util.generic_only(F, g.values()))      # closures included (see C12)
     names = set(f["def"] for f in fns)
     for want in ("<reader::ShapeIterator<'_, T, S> as std::iter::Iterator>::next", "reader::ShapeReader::<T>::read_nth_shape_as",
                  "reader::ShapeReader::<T>::seek", "header::Header::read_from", "reader::read_one_shape_as",
@@ -38,6 +38,11 @@ def run(ctx):
         else:
             ctx.ob("C13.sites", want, True, "on the reader graph", trivial=True)
     n = discipline.check(ctx, F, "C13.errs", fns)
+    ctx.rule("C13.accum", "no error is lost between iterations: a `fold` over a Result accumulator hands a failed accumulator on, and "
+                          "an iterator of Results is never consumed by an adaptor that throws its items away (count, last, for_each, "
+                          "nth, max, min, drop); expected instance count on this tree is 0 — the positive control is in the witness crate "
+                          "(thorough tier)", floor=0)
+    ctx.extra["accumulating_consumers_found"] = discipline.check_accumulators(ctx, F, "C13.accum", fns)
     ctx.extra["fallible_sites_reader"] = n
     ctx.extra["reader_graph_functions"] = len(fns)
 
